@@ -1,0 +1,71 @@
+//go:build verif
+
+package asp
+
+import (
+	"bytes"
+	"errors"
+	"runtime"
+)
+
+// VerifErrInfo describes an error returned by the parser, for the /verif property checks.
+type VerifErrInfo struct {
+	// Positioned is true if the error is asp's positioned error type (errorStack).
+	Positioned bool
+	// Frames is the number of stack frames (source positions) the error carries.
+	Frames int
+	// Runtime is true if the error is, or wraps, a runtime.Error (index out of range, nil dereference...).
+	Runtime bool
+	// Line, Column, Offset are those of the innermost frame (all 1-based; 0 if there is no frame).
+	Line, Column, Offset int
+	// Short is the bare message.
+	Short string
+}
+
+// VerifErrorInfo inspects an error returned by Parser.ParseData and friends.
+func VerifErrorInfo(err error) VerifErrInfo {
+	info := VerifErrInfo{}
+	if err == nil {
+		return info
+	}
+	info.Short = err.Error()
+	var rt runtime.Error
+	info.Runtime = errors.As(err, &rt)
+	if stack, ok := err.(*errorStack); ok {
+		info.Positioned = true
+		info.Frames = len(stack.Stack)
+		if stack.err != nil {
+			info.Short = stack.err.Error()
+			if errors.As(stack.err, &rt) {
+				info.Runtime = true
+			}
+		}
+		if len(stack.Stack) > 0 {
+			info.Line, info.Column, info.Offset = stack.Stack[0].Line, stack.Stack[0].Column, stack.Stack[0].Offset
+		}
+	}
+	return info
+}
+
+// VerifLex runs the lexer alone over the data and returns the types of the tokens it produces
+// (at most max of them), and the lexer's error if it failed.
+func VerifLex(data []byte, max int) (types []rune, err error) {
+	defer func() {
+		if r := recover(); r != nil {
+			if e, ok := r.(error); ok {
+				err = e
+			} else {
+				panic(r)
+			}
+		}
+	}()
+	l := newLexer(bytes.NewReader(data))
+	for len(types) < max {
+		tok := l.Next()
+		if tok.Type == EOF {
+			break
+		}
+		types = append(types, tok.Type)
+	}
+	return types, nil
+}
